@@ -62,6 +62,7 @@ type World struct {
 	NextWID uint32
 	attachA map[*Conn]int // index into AckLog at attach time
 	rest    http.Handler  // the controller's management API (what an operator or the CSI driver sees)
+	rdv *rendezvous // set while an operation's replicas are to answer at the same instant
 	// OperatorRW: an operator request set a replica's mode to RW by hand (no verification, no counter equalisation)
 	OperatorRW bool
 
